@@ -471,7 +471,7 @@ class ExprMixin:
                 i = self.term(idx, TInt()) if not isinstance(idx, int) else z3.IntVal(idx)
                 if isinstance(idx, int) and idx < 0:
                     ok = n >= -idx
-                    pos = n + idx
+                    pos = n - (-idx)       # the same term shape as list.pop() / s[:-k] (n - k)
                 else:
                     ok = z3.And(i >= 0, i < n) if not isinstance(idx, int) else i < n
                     pos = i
@@ -544,7 +544,7 @@ class ExprMixin:
             if isinstance(lo, int) and lo >= 0 and hi is None:
                 return SV(sub(obj.term, z3.IntVal(lo), n - lo), obj.ty)
             if lo is None and isinstance(hi, int) and hi < 0:
-                return SV(sub(obj.term, z3.IntVal(0), n + hi), obj.ty)
+                return SV(sub(obj.term, z3.IntVal(0), n - (-hi)), obj.ty)
             if lo is None and isinstance(hi, SV) and z3.is_app(hi.term) and hi.term.decl().kind() == z3.Z3_OP_SEQ_LENGTH:
                 # s[:len(t)] : the bound is a length, hence non-negative: one extract
                 return SV(sub(obj.term, z3.IntVal(0), hi.term), obj.ty)
